@@ -103,3 +103,18 @@ func (x *Ex) genApply(body *LeanFile) {
 	}
 	x.emitOrSentinel(body, "distiller.Apply (option-dependent tail)", "applyTail", "(o : OptAtoms)", "String × (String × String)", out, env)
 }
+
+// bodyStmts emits the top-level statements of a function as collapsed source text: a cheap,
+// exact fingerprint of short orchestration functions whose *shape* is a proof premise.
+func (x *Ex) bodyStmts(body *LeanFile, rel, recv, fn, leanName string) {
+	fd := x.funcDecl(rel, recv, fn)
+	var items []string
+	if fd == nil {
+		x.fail("%s.%s.%s not found", rel, recv, fn)
+	} else {
+		for _, s := range fd.Body.List {
+			items = append(items, collapse(x.src(s)))
+		}
+	}
+	body.def(rel+"."+recv+"."+fn+": top-level statements", "def "+leanName+" : List String :=\n  ["+joinLean(items)+"]")
+}
